@@ -77,6 +77,7 @@ pub fn decide(cond: Id) -> bool {
         Node::Eq(a, b) => { if a == b { return true; } if let (Some(x), Some(y)) = (const_val(a), const_val(b)) { return x == y; } },
         _ => {}
     }
+    if let Some(v) = implied(cond) { return v; }
     with(|a| {
         // a condition already decided on this path keeps its outcome
         if let Some((_, o)) = a.trace.iter().find(|(c, _)| *c == cond) { return *o; }
@@ -85,6 +86,50 @@ pub fn decide(cond: Id) -> bool {
         a.trace.push((cond, d));
         d
     })
+}
+
+/// Outcome of `cond` when it follows from the order facts already decided on this path
+/// (transitive closure of <, <=, = between the same terms). Pruning only: the returned outcome is
+/// implied by the recorded path condition, so nothing is lost or assumed.
+fn implied(cond: Id) -> Option<bool> {
+    let (kind, x, y) = match node(cond) { Node::Lt(a, b) => (0, a, b), Node::Le(a, b) => (1, a, b), Node::Eq(a, b) => (2, a, b), _ => return None };
+    // facts: le[a][b] (a <= b), lt[a][b] (a < b) over the ids that occur
+    let facts: Vec<(Id, bool)> = with(|a| a.trace.clone());
+    let mut ids: Vec<Id> = vec![x, y];
+    let mut rel: Vec<(Id, Id, bool)> = Vec::new(); // (a, b, strict): a < b or a <= b
+    let mut neq: Vec<(Id, Id)> = Vec::new();
+    for (c, o) in facts {
+        match (node(c), o) {
+            (Node::Lt(a, b), true) => rel.push((a, b, true)),
+            (Node::Lt(a, b), false) => rel.push((b, a, false)),
+            (Node::Le(a, b), true) => rel.push((a, b, false)),
+            (Node::Le(a, b), false) => rel.push((b, a, true)),
+            (Node::Eq(a, b), true) => { rel.push((a, b, false)); rel.push((b, a, false)); }
+            (Node::Eq(a, b), false) => neq.push((a, b)),
+            _ => {}
+        }
+    }
+    for (a, b, _) in &rel { if !ids.contains(a) { ids.push(*a); } if !ids.contains(b) { ids.push(*b); } }
+    // constants are ordered among themselves
+    let consts: Vec<(Id, f64)> = ids.iter().filter_map(|i| const_val(*i).map(|v| (*i, v))).collect();
+    for (i, vi) in &consts { for (j, vj) in &consts { if i != j { if vi < vj { rel.push((*i, *j, true)); } else if vi == vj { rel.push((*i, *j, false)); } } } }
+    let n = ids.len();
+    if n > 64 { return None; }
+    let ix = |i: Id| ids.iter().position(|k| *k == i).unwrap();
+    let mut le = vec![vec![false; n]; n];
+    let mut lt = vec![vec![false; n]; n];
+    for i in 0..n { le[i][i] = true; }
+    for (a, b, strict) in &rel { let (i, j) = (ix(*a), ix(*b)); le[i][j] = true; if *strict { lt[i][j] = true; } }
+    for k in 0..n { for i in 0..n { for j in 0..n {
+        if le[i][k] && le[k][j] { le[i][j] = true; if lt[i][k] || lt[k][j] { lt[i][j] = true; } }
+    } } }
+    let (i, j) = (ix(x), ix(y));
+    let ne = neq.iter().any(|(a, b)| (*a == x && *b == y) || (*a == y && *b == x));
+    match kind {
+        0 => { if lt[i][j] || (le[i][j] && ne) { Some(true) } else if le[j][i] { Some(false) } else { None } }
+        1 => { if le[i][j] { Some(true) } else if lt[j][i] { Some(false) } else { None } }
+        _ => { if lt[i][j] || lt[j][i] || ne { Some(false) } else if le[i][j] && le[j][i] { Some(true) } else { None } }
+    }
 }
 
 pub fn reset_run(script: Vec<bool>) {
